@@ -143,7 +143,7 @@ uint32_t igris_atou32(const char *buf, uint8_t base, char **end)
     }
 
     if (end)
-        *end = (char *)buf - 1;
+        *end = (char *)buf;
 
     return res;
 }
@@ -158,7 +158,7 @@ uint64_t igris_atou64(const char *buf, uint8_t base, char **end)
     }
 
     if (end)
-        *end = (char *)buf - 1;
+        *end = (char *)buf;
 
     return res;
 }
